@@ -831,4 +831,16 @@ theorem accepted_trigger_visible_aux (els : List El) (pre : Path) (h : check dyn
         · rename_i hctl; simp [shown, hh', hctl]
         · cases hue
 
+
+/-! ## interface lemmas for composition (`Pyxv.Convert`): the four parts of `gen` -/
+
+@[simp] theorem gen_inst (root : Str) (els : List El) :
+    (gen dyn sub root els).inst = .node root false [] (instKids dyn false els) := rfl
+@[simp] theorem gen_modelSets (root : Str) (els : List El) :
+    (gen dyn sub root els).modelSets = modelSets dyn sub [root] els := rfl
+@[simp] theorem gen_binds (root : Str) (els : List El) :
+    (gen dyn sub root els).binds = binds sub [root] els := rfl
+@[simp] theorem gen_body (root : Str) (els : List El) :
+    (gen dyn sub root els).body = body dyn sub (pathOf (qPaths [root] els)) (trigTable els) [root] els := rfl
+
 end Pyxv.Defaults
